@@ -709,6 +709,12 @@ fn collect_free_variables(expr: &SpannedExpr, vars: &mut Vec<String>, bound: &mu
                 vars.push(name.clone());
             }
         }
+        // `#field` reads the variable `inputs`
+        Expr::InputReference(_) => {
+            if !bound.contains("inputs") {
+                vars.push("inputs".to_string());
+            }
+        }
         Expr::Lambda { args, body } => {
             let mut new_bound = bound.clone();
             for arg in args {
